@@ -51,7 +51,7 @@ META = {
     'technique': 'Lean 4 proof over a hand-written executable model + differential execution against the real code + predicates on real outputs',
 }
 GEN = []
-MODULES = ['TamocV.Props.C02', 'TamocV.Model.Flash']
+MODULES = ['TamocV.Props.C02Root', 'TamocV.Props.C02', 'TamocV.Model.Flash']
 RULE = ('phase-split solve: n = 1..7, z Dirichlet(0.2|1|3) (10% with an exact zero), K log-uniform in [1e-6,1e6]^n in the '
         'regimes ' + ', '.join(scen_mix.RR_KINDS) + ' plus fixed edge cases (pure component, K = 1 entries, z_i = 1 with K_i = 1, '
         'sum z K = 1 exactly), random molar masses in half of the cases; flash (cold start only — the warm-start clause of the '
@@ -75,7 +75,7 @@ EXCLUDE = ()               # hydrogen is included since z_pr was repaired (commi
 
 def audit_files():
     return ['TamocV/Num.lean', 'TamocV/Real.lean', 'TamocV/Lemmas/Basic.lean', 'TamocV/Model/Flash.lean',
-            'TamocV/Lemmas/C02.lean', 'TamocV/Props/C02.lean']
+            'TamocV/Lemmas/C02.lean', 'TamocV/Props/C02.lean', 'TamocV/Lemmas/C02Root.lean', 'TamocV/Props/C02Root.lean']
 
 
 # =============================================================================================
